@@ -171,6 +171,8 @@ def run(ctx):
                 for pp in ("hello.pyg", "docs/two.pyg"):
                     os.utime(tree.path(pp), (1_700_000_000, 1_700_000_000))        # written within the same second
                 objs += [("/docs/two.pyg", "file")]
+                # executable by its mode only: the kernel refuses to run it (ENOEXEC) when the script handler tries
+                tree.write("docs/notaprogram", b"data with the x bit set, not a program\n", mode=0o755)
                 kw["handlers.ZIP.ZIPHandler|enabled"] = "true"
             cfg = pyg.make_config(tree.root, pyg.FULL_HANDLERS if listname == "full" else None, **kw)
             pristine = tree.tmp + "-pristine"
@@ -198,6 +200,9 @@ def run(ctx):
                          (b"/docs\r\n", False), (b"/docs\t$\r\n", False), (b"GET /docs HTTP/1.0\r\n\r\n", False), (b"GET /wap/docs HTTP/1.0\r\n\r\n", False),
                          (b"/docs\t+\r\n", False), (b"gemini://h/docs\r\n", True), (b"h /docs 0\r\n", False), (b"/docs\r\n", False),
                          (b"\t$\r\n", False), (b"GET / HTTP/1.0\r\n\r\n", False), (b"\r\n", False),
+                         # a file the script handler claims (mode) and the kernel will not run
+                         (b"/docs/notaprogram\r\n", False), (b"/docs/notaprogram\t+\r\n", False), (b"GET /docs/notaprogram HTTP/1.0\r\n\r\n", False),
+                         (b"gemini://h/docs/notaprogram\r\n", True), (b"h /docs/notaprogram 0\r\n", False), (b"GET /wap/docs/notaprogram HTTP/1.0\r\n\r\n", False),
                          # two scripts with the same modification second, one after the other
                          (b"/hello.pyg\r\n", False), (b"/docs/two.pyg\r\n", False), (b"/hello.pyg\t!\r\n", False), (b"/docs/two.pyg\t+\r\n", False)]
                 requests = fixed + requests
@@ -232,8 +237,17 @@ def run(ctx):
                         res.violation("C03:internal-error:" + unhandled[0] + ":" + (r.handler or proto), "an unhandled internal error was logged instead of a response",
                                       inp, observed={"log": r.log[-2:], "out": r.out[:80]}, required="a well-formed response", replay=rp)
                     why = validate(proto, r.out, r)
+                    if not why and excs and r.out:
+                        # a success status went out and an error was handled afterwards: whatever follows the status is the
+                        # error's answer (a second status line), not the document
+                        ok_status = {"http": rb"HTTP/1\.0 200 OK\r\n", "https": rb"HTTP/1\.0 200 OK\r\n", "wap": rb"HTTP/1\.0 200 OK\r\n",
+                                     "gemini": rb"2\d ", "spartan": rb"2 "}.get(proto)
+                        if ok_status and re.match(ok_status, r.out):
+                            why = "two status lines: a success status, then the answer to an error (" + excs[0] + ")"
                     if why and not unhandled:
-                        res.violation("C03:malformed:" + proto + ":" + why.split(" ")[0], "the response is not syntactically valid for the detected protocol", inp,
+                        # (the cause, where the log names one the kernel reports, is part of the key: one finding per cause)
+                        cause = ":exec-format-error" if any("Exec format error" in ln for ln in r.log) else ""
+                        res.violation("C03:malformed:" + proto + ":" + why.split(" ")[0] + cause, "the response is not syntactically valid for the detected protocol", inp,
                                       observed={"why": why, "out": r.out[:120]}, required="valid response", replay=rp)
                     seq_out.append(mask(r.out))
                     # correspondence: not-found framing
